@@ -50,9 +50,10 @@ package state
 //@ func (*ViewContexts).For
 //@   props C15
 //@   modifies M:S_state_HeightView:Int
-//@   requires hv != nil && w.parentCtxWithCancel != nil && w.hvToContext != nil
-//@   requires forall k HeightView :: has(w.hvToContext, k) && w.newestHvCanceledOlder != nil ==> !(k.height < w.newestHvCanceledOlder.height || (k.height == w.newestHvCanceledOlder.height && k.view < w.newestHvCanceledOlder.view))
-//@   ensures [inv.no-context-below-watermark] forall k HeightView :: has(w.hvToContext, k) && w.newestHvCanceledOlder != nil ==> !(k.height < w.newestHvCanceledOlder.height || (k.height == w.newestHvCanceledOlder.height && k.view < w.newestHvCanceledOlder.view))
+//@   requires hv != nil
+//@   objinv [fields] w.parentCtxWithCancel != nil && w.hvToContext != nil
+//@   objinv [entries-non-nil] forall k HeightView :: has(w.hvToContext, k) ==> w.hvToContext[k] != nil
+//@   objinv [no-context-below-watermark] forall k HeightView :: has(w.hvToContext, k) && w.newestHvCanceledOlder != nil ==> !(k.height < w.newestHvCanceledOlder.height || (k.height == w.newestHvCanceledOlder.height && k.view < w.newestHvCanceledOlder.view))
 //@   ensures [err.iff] (result1 != nil) == (old(w.shutdown) || (old(w.newestHvCanceledOlder) != nil && (hv.height < old(w.newestHvCanceledOlder).height || (hv.height == old(w.newestHvCanceledOlder).height && hv.view < old(w.newestHvCanceledOlder).view))))
 //@   ensures [err.frame] result1 != nil ==> result0 == nil && (forall k HeightView :: has(w.hvToContext, k) == old(has(w.hvToContext, k)) && w.hvToContext[k] == old(w.hvToContext[k]))
 //@   ensures [ok.present] result1 == nil ==> has(w.hvToContext, deref(hv)) && w.hvToContext[deref(hv)] != nil && w.hvToContext[deref(hv)].ctx == result0
@@ -65,10 +66,10 @@ package state
 //@ func (*ViewContexts).CancelOlderThan
 //@   props C15
 //@   modifies M:S_state_HeightView:Int, state.ViewContexts.newestHvCanceledOlder, ghost:cancelled
-//@   requires hv != nil && w.hvToContext != nil
-//@   requires forall k HeightView :: has(w.hvToContext, k) ==> w.hvToContext[k] != nil
-//@   requires forall k HeightView :: has(w.hvToContext, k) && w.newestHvCanceledOlder != nil ==> !(k.height < w.newestHvCanceledOlder.height || (k.height == w.newestHvCanceledOlder.height && k.view < w.newestHvCanceledOlder.view))
-//@   ensures [inv.no-context-below-watermark] forall k HeightView :: has(w.hvToContext, k) && w.newestHvCanceledOlder != nil ==> !(k.height < w.newestHvCanceledOlder.height || (k.height == w.newestHvCanceledOlder.height && k.view < w.newestHvCanceledOlder.view))
+//@   requires hv != nil
+//@   objinv [fields] w.parentCtxWithCancel != nil && w.hvToContext != nil
+//@   objinv [entries-non-nil] forall k HeightView :: has(w.hvToContext, k) ==> w.hvToContext[k] != nil
+//@   objinv [no-context-below-watermark] forall k HeightView :: has(w.hvToContext, k) && w.newestHvCanceledOlder != nil ==> !(k.height < w.newestHvCanceledOlder.height || (k.height == w.newestHvCanceledOlder.height && k.view < w.newestHvCanceledOlder.view))
 //@   ensures [older-removed] forall k HeightView :: (k.height < hv.height || (k.height == hv.height && k.view < hv.view)) ==> !has(w.hvToContext, k)
 //@   ensures [older-cancelled] forall k HeightView :: old(has(w.hvToContext, k)) && (k.height < hv.height || (k.height == hv.height && k.view < hv.view)) ==> cancelled[old(w.hvToContext[k].cancel)]
 //@   ensures [others-kept] forall k HeightView :: !(k.height < hv.height || (k.height == hv.height && k.view < hv.view)) ==> has(w.hvToContext, k) == old(has(w.hvToContext, k)) && w.hvToContext[k] == old(w.hvToContext[k])
